@@ -7,7 +7,12 @@ V = Path(__file__).resolve().parent.parent
 for rf in sorted(glob.glob('/tmp/seedres/C*-m*.json')):
     name = Path(rf).stem            # C01-m1
     pid, mk = name.split('-')
-    src = Path(f'/tmp/seed-{pid}/{mk}')
+    if mk.startswith('r2'):
+        src = Path(f'/tmp/seed2-{pid}/{mk[2:]}')
+    else:
+        src = Path(f'/tmp/seed-{pid}/{mk}')
+    if not src.exists():
+        continue
     try:
         res = json.load(open(rf))
     except Exception:
